@@ -1,0 +1,12 @@
+//go:build verif && !verifoverlay
+
+package serf
+
+import "os"
+
+// verifSnapOpen opens the snapshot file exactly as NewSnapshotter does. (Separate
+// file: in the file-system-shim overlay build of the verification harness the same
+// function goes through the shim, see verif_hooks_snapshot_open_overlay.go.)
+func verifSnapOpen(path string) (*os.File, error) {
+	return os.OpenFile(path, os.O_RDWR|os.O_APPEND|os.O_CREATE, 0644)
+}
